@@ -380,3 +380,25 @@ V('c13-benign-downcast-match', 'C13', 'silent', (E, '''        if self.is::<T>()
         }
         let ptr = self as *const Self as *const EntryStorage<T>;
         unsafe { Some(&*ptr) }'''))
+
+# ---- C15
+V('c15-reintroduce-F4', 'C15', 'C15.R2', (H, '''                Err(channel::TryRecvError::Empty) => break,
+                // The cache was dropped, we can stop now
+                Err(channel::TryRecvError::Disconnected) => break 'reload,''', '''                Err(_) => break,'''))
+V('c15-events-disconnect-ignored', 'C15', 'C15.R2', (H, '''                // We won't receive events anymore, we can stop now
+                Err(crossbeam_channel::TryRecvError::Disconnected) => break,''', '''                Err(crossbeam_channel::TryRecvError::Disconnected) => (),'''))
+V('c15-busy-poll', 'C15', 'C15.R1', (H, '''        let ready = select.ready();
+''', '''        let ready = match select.try_ready() {
+            Ok(r) => r,
+            Err(_) => continue,
+        };
+'''))
+V('c15-watcher-kept', 'C15', 'C15.R3', (HW, '''                    if self.events.send_multiple(ids).is_err() {
+                        drop(self.watcher.take());
+                    }''', '''                    if self.events.send_multiple(ids).is_err() {
+                        log::trace!("reloader is gone");
+                    }'''))
+V('c15-benign-return', 'C15', 'silent', (H, '''                Err(channel::TryRecvError::Disconnected) => break 'reload,''', '''                Err(channel::TryRecvError::Disconnected) => {
+                    log::info!("Stopping hot-reloading");
+                    return;
+                }'''))
